@@ -19,12 +19,15 @@ Report(id, kind, x) == PrintT(<<"MISMATCH", id, kind, ToJson(x)>>)
 
 AttemptOK(E, paths, a) ==
   LET exp == Observe(E, paths[a.p], a.s) IN
-  IF ~GetattrJudged(E, paths[a.p], a.s) THEN TRUE
+  \* style "fwd" (x := NAME, then the script's own func NAME() {}, value x): the script reads its own function's
+  \* name before the definition has run; whatever that yields, it must not be a removed object (rule "direct" below)
+  IF a.s = "fwd" THEN TRUE
+  ELSE IF ~GetattrJudged(E, paths[a.p], a.s) THEN TRUE
   ELSE IF exp = 0 THEN ~a.ok
   ELSE a.ok /\ a.l = E.nodes[exp].l /\ (exp \in ReplRoots => a.r = KindOfRoot(exp))
 Describe(E, paths, a) ==
   [path |-> paths[a.p], style |-> a.s, got_ok |-> a.ok, got |-> a.l, got_repl |-> a.r,
-   expected |-> LabelOf(E, Observe(E, paths[a.p], a.s))]
+   expected |-> IF a.s = "fwd" THEN "(anything but a removed object)" ELSE LabelOf(E, Observe(E, paths[a.p], a.s))]
 
 Check == i <= Len(Cases) =>
   LET row == Cases[i]
